@@ -16,6 +16,8 @@ Definition history_oracle (input o : json) : option string :=
   else if (g "min_salt_bytes" <? 16)%N then Some "a salt decodes to fewer than 16 bytes"
   else if negb (g "salt_bits_constant" =? 0)%N then Some "a bit position has the same value in every byte of every salt: the salts carry fewer than 128 random bits"
   else if (g "salt_byte_values_seen" <? 250)%N then Some "the bytes of the salts take only a part of the 256 values: the salts carry fewer than 128 random bits"
+  else if (g "clone_groups" <? 10)%N then Some "too few groups of cloned issuers observed"
+  else if negb (g "clone_groups_frozen" =? 0)%N then Some "six clones of one prepared issuer put every claim's digest at the same position of the top-level list: the clones share their random choices, the order of the list tells which digest hides which claim"
   else if negb (g "dup_salts" =? 0)%N then Some "a salt repeats across disclosures or issuances"
   else if negb (g "dup_digests" =? 0)%N then Some "a digest repeats across claims or issuances"
   else if negb (g "dup_decoys" =? 0)%N then Some "a decoy digest repeats: the decoy space is small enough to enumerate"
